@@ -94,6 +94,15 @@ def step (st : State) (w : List String) : State × String :=
     match parseAddr a with
     | some (f, v) => (st, s!"reply={boolStr (aclNext st.dacl false f v)}")
     | none => (st, "bad-op")
+  | ["dchain", "slab", _proto, as] =>
+    -- one chain and one transport object reused for several peers: each query
+    -- is judged by its own source ("i" = the internal sentinel)
+    let rs := (as.splitOn ",").mapM fun a =>
+      if a == "i" then some true else
+      (parseAddr a).map fun (f, v) => aclNext st.dacl false f v
+    match rs with
+    | some l => (st, "reply=" ++ String.join (l.map boolStr))
+    | none => (st, "bad-op")
   | "dchain" :: "rlserve" :: _ => (st, "unmodelled")
   | "sub" :: _ => (st, "unmodelled")
   | _ => (st, "bad-op")
